@@ -166,7 +166,7 @@ def readOptF (pool : Pool) (migrate : Bool) : Option WAmt → Except LoadErr (Op
   | some w =>
     match readAmt false migrate w with
     | .error e => .error e
-    | .ok (a, sty) => .ok (some a, if migrate then pool.learn w.comm sty else pool)
+    | .ok (a, sty) => .ok (some a, if migrate && decide (w.comm ≠ "") then pool.learn w.comm sty else pool)
 
 def readPostF (pool : Pool) (p : WPost) : Except LoadErr (Posting × Pool) :=
   match readOptF pool true p.amount with
@@ -212,7 +212,12 @@ theorem readOptF_inv {ws : List (WAmt × Bool)} {pool pool' : Pool} (hi : Inv ws
       rw [← h.2]
       cases m with
       | false => exact hi
-      | true => exact Inv_learn hi (hw w rfl) hr
+      | true =>
+        by_cases hcm : w.comm = ""
+        · simp only [hcm, ne_eq, not_true_eq_false, decide_false, Bool.and_false, Bool.false_eq_true, if_false]
+          exact hi
+        · simp only [ne_eq, hcm, not_false_eq_true, decide_true, Bool.and_self, if_true]
+          exact Inv_learn hi (hw w rfl) hr
 
 theorem mem_amtsOfPost_amount {p : WPost} {w : WAmt} (h : p.amount = some w) : (w, true) ∈ amtsOfPost p := by
   simp [amtsOfPost, h]
@@ -291,7 +296,7 @@ theorem readPosts_eq {ws : List (WAmt × Bool)} (hc : styleConsistent ws = true)
 def obsOpt (migrate : Bool) : Option WAmt → List (Comm × Style)
   | none => []
   | some w =>
-    if migrate then
+    if migrate && decide (w.comm ≠ "") then
       match readAmt false migrate w with
       | .ok r => [(w.comm, r.2)]
       | .error _ => []
@@ -311,7 +316,12 @@ theorem readOptF_iff (pool : Pool) (m : Bool) (o : Option WAmt) (r : Option Amou
     | error e => simp
     | ok x =>
       obtain ⟨a, sty⟩ := x
-      cases m <;> simp [Pool.learnAll, eq_comm]
+      simp only [Except.ok.injEq, Prod.mk.injEq, Option.some.injEq]
+      by_cases hl : (m && decide (w.comm ≠ "")) = true
+      · simp only [hl, if_true, Pool.learnAll, List.foldl_cons, List.foldl_nil]
+        exact ⟨fun h => ⟨h.1, h.2.symm⟩, fun h => ⟨h.1, h.2.symm⟩⟩
+      · simp only [hl, Bool.false_eq_true, if_false, Pool.learnAll, List.foldl_nil]
+        exact ⟨fun h => ⟨h.1, h.2.symm⟩, fun h => ⟨h.1, h.2.symm⟩⟩
 
 theorem readPostF_iff (pool : Pool) (p : WPost) (q : Posting) (pool' : Pool) :
     readPostF pool p = .ok (q, pool') ↔ canonPost p = some q ∧ pool' = pool.learnAll (obsPost p) := by
@@ -1171,6 +1181,75 @@ theorem takeWhile_eq_filter_of_sorted (d : Int) : ∀ (l : List Entry), l.Pairwi
       intro y hy
       have := h.1 y hy
       simp only [decide_eq_true_eq]; omega
+
+/-! ### The precision counter of an accumulated balance -/
+
+/-- the internal precision counter ledger keeps for commodity `c` in a balance (0 when absent). -/
+def balPrec (b : Balance) (c : Comm) : Nat :=
+  match b.find? c with
+  | some x => x.prec
+  | none => 0
+
+theorem addGo_prec (b : Balance) (a : Amount) (c : Comm) :
+    balPrec (Balance.addGo b a) c = if a.comm = c then max (balPrec b c) a.prec else balPrec b c := by
+  induction b with
+  | nil =>
+    by_cases h : a.comm = c <;> simp [Balance.addGo, balPrec, Balance.find?, h]
+  | cons x xs ih =>
+    unfold Balance.addGo
+    by_cases hxa : x.comm = a.comm
+    · simp only [hxa, if_true]
+      by_cases hc : a.comm = c
+      · simp [balPrec, Balance.find?, hc, hxa]
+      · simp [balPrec, Balance.find?, hc, hxa]
+    · simp only [hxa, if_false]
+      by_cases hxc : x.comm = c
+      · have hac : ¬ a.comm = c := fun h => hxa (hxc.trans h.symm)
+        simp [balPrec, Balance.find?, hxc, hac]
+      · have e1 : balPrec (x :: Balance.addGo xs a) c = balPrec (Balance.addGo xs a) c := by
+          simp [balPrec, Balance.find?, hxc]
+        have e2 : balPrec (x :: xs) c = balPrec xs c := by
+          simp [balPrec, Balance.find?, hxc]
+        rw [e1, e2, ih]
+
+theorem addAmt_prec (b : Balance) (a : Amount) (c : Comm) :
+    balPrec (Balance.addAmt b a) c =
+      if a.q ≠ 0 ∧ a.comm = c then max (balPrec b c) a.prec else balPrec b c := by
+  unfold Balance.addAmt
+  by_cases hq : a.q = 0
+  · simp [hq]
+  · simp only [hq, if_false, addGo_prec, ne_eq, not_false_eq_true, true_and]
+
+/-- the maximum of the precision counters of the nonzero amounts of commodity `c`. -/
+def maxPrec (c : Comm) (es : List Entry) (m0 : Nat) : Nat :=
+  es.foldl (fun m e => if e.amt.q ≠ 0 ∧ e.amt.comm = c then max m e.amt.prec else m) m0
+
+theorem foldl_addAmt_prec (es : List Entry) (b0 : Balance) (c : Comm) :
+    balPrec (es.foldl (fun b e => Balance.addAmt b e.amt) b0) c = maxPrec c es (balPrec b0 c) := by
+  induction es generalizing b0 with
+  | nil => rfl
+  | cons e rest ih => simp only [List.foldl_cons, maxPrec, ih, addAmt_prec]
+
+theorem maxPrec_perm (c : Comm) {l₁ l₂ : List Entry} (h : l₁.Perm l₂) (m0 : Nat) :
+    maxPrec c l₁ m0 = maxPrec c l₂ m0 := by
+  unfold maxPrec
+  apply List.Perm.foldl_eq' h
+  intro x _ y _ z
+  by_cases hx : x.amt.q ≠ 0 ∧ x.amt.comm = c <;> by_cases hy : y.amt.q ≠ 0 ∧ y.amt.comm = c
+  · simp only [if_pos hx, if_pos hy]; omega
+  · simp only [if_pos hx, if_neg hy]
+  · simp only [if_neg hx, if_pos hy]
+  · simp only [if_neg hx, if_neg hy]
+
+theorem ownBalance_prec (es : List Entry) (a : String) (c : Comm) :
+    balPrec (ownBalance es a) c = maxPrec c (es.filter (fun e => e.account = a)) 0 := by
+  unfold ownBalance
+  rw [foldl_addAmt_prec]; rfl
+
+theorem familyBalance_prec (es : List Entry) (a : String) (c : Comm) :
+    balPrec (familyBalance es a) c = maxPrec c (es.filter (fun e => accountUnder e.account a)) 0 := by
+  unfold familyBalance
+  rw [foldl_addAmt_prec]; rfl
 
 end OF
 end Ledger
